@@ -140,6 +140,10 @@ class SMCSampler(MCMCSampler):
             target_eff = self.current_target_efficiency(beta_prev)
             while beta_max - beta_min > beta_tolerance:
                 beta_try = 0.5 * (beta_max + beta_min)
+                if not (beta_min < beta_try < beta_max):
+                    # Adjacent floats: the bracket cannot be resolved further
+                    # (a tolerance below the float spacing would spin forever)
+                    break
                 eff = effective_sample_size(
                     samples.log_weights(beta_try)
                 ) / len(samples)
